@@ -1,0 +1,8 @@
+//go:build !verif
+
+package http2
+
+// Verification hooks, compiled out. See verif_hooks_on.go.
+
+func verifPoolGet(kind uint8, obj interface{}) {}
+func verifPoolPut(kind uint8, obj interface{}) {}
